@@ -237,12 +237,9 @@ def part_a(ctx):
 
 
 # ------------------------------------------------------------------------------------------------ part B: real sockets
-def _free_port():
-    s = socket.socket()
-    s.bind(("127.0.0.1", 0))
-    p = s.getsockname()[1]
-    s.close()
-    return p
+def _free_port(ctx):
+    from lib import ports
+    return ports.free_port(ctx.shard, ctx.nshards)
 
 
 def _recv_frames(sock, want, timeout=3.0):
@@ -305,7 +302,7 @@ def _call(fn, timeout):
 def _scenario_b(ctx, inj, idx, state):
     rng = ctx.rng
     active = rng.random() < 0.5
-    port = _free_port()
+    port = _free_port(ctx)
     ep = RealEndpoint(active, port)
     kind = rng.choice(["cut_then_peer_close", "cut_then_disable", "disable_during_connect", "disable_right_after_accept",
                        "peer_closes_first_then_disable", "cycles"])
